@@ -1,5 +1,5 @@
 """C02 — rendering is total: no internal error, no hang, at least one page."""
-from harness import docs, pm, pm_corr
+from harness import docs, pm, pm_corr, widegen, wide_trace
 from vlib import sx
 from vlib.framework import PropCheck
 
@@ -58,6 +58,25 @@ class C02(PropCheck):
                 return 'ok' if len(document.pages) >= 1 and data[:5] == b'%PDF-' else 'bad-output'
             out = docs.outcome(go)
             sec2.add(sx.line('total'), out, meta={'doc': pm_corr.doc_json(doc), 'html': html})
+        sec3 = run.section(
+            'wide-total',
+            'documents of the wide grammar (inline markup, lists, tables, columns, flex, grid, floats, positioned '
+            'boxes, footnotes, breaks; pages down to one line) rendered and written to PDF: outcome kind with the '
+            'innermost weasyprint frame vs the model "returns"; non-trivial = uses at least 3 features')
+        for _ in range(run.n(100, 3000)):
+            doc = widegen.gen(run.rng)
+            out = wide_trace.render_outcome(doc['html'])
+            sec3.add(sx.line('total'), out, meta={'html': doc['html'], 'features': doc['features']},
+                     nontrivial=len(doc['features']) >= 3, tags=doc['features'])
+
+    def classify(self, d):
+        if d['section'] == 'wide-total' and d['impl'].startswith('err:'):
+            if d['impl'].endswith('@inline.py:skip_first_whitespace') and 'flex' in d['meta'].get('features', ()):
+                return 'flex-item-resume-crash'
+        return None
+
+    def finding_replays(self):
+        return {'flex-item-resume-crash': flex_resume_crash}
 
     def judge(self, d):
         if d['impl'].startswith('err:'):
@@ -75,6 +94,9 @@ class C02(PropCheck):
     def replay(self, data):
         inp = data.get('input', {})
         meta = inp.get('meta') or inp
+        if 'html' in meta and 'doc' not in meta:
+            out = wide_trace.render_outcome(meta['html'])
+            return None if out == 'ok' else f'rendering failed with {out}'
         if 'doc' in meta:
             doc = pm_corr.doc_from_json(meta['doc'])
             out = pm_corr.real_line(doc)
@@ -82,6 +104,18 @@ class C02(PropCheck):
                 return f'rendering failed with {out}'
             return pm_corr.progress_violation(doc, out)
         return None
+
+
+FLEX_CRASH = (
+    '<style>@page{size:60px 21px;margin:5px}html,body{margin:0}body{font-size:10px;line-height:10px}p{margin:0}</style>'
+    '<div style="columns:3;column-gap:4px"><div style="display:flex;flex-direction:row"><div style="flex:1">'
+    '<p style="margin:4px 0">w1 w2 w3</p></div><div style="flex:1"><p style="padding:4px;border:2px solid;orphans:4;'
+    'widows:3">w4 <b>w5 w6 w7</b> w8 w9 w10 w11 <b style="padding:0 2px">w12</b> w13 w14 w15<br> w16</p></div>'
+    '<div style="flex:1"><p style="padding:4px">w17</p></div></div></div>')
+
+
+def flex_resume_crash():
+    return wide_trace.render_outcome(FLEX_CRASH).startswith('err:')
 
 
 PROP = C02()
